@@ -38,9 +38,8 @@ def _fields(prefix, allow=FIELDS, mask=None):
 def _rule_violation(vals):
     """documented rules on the effective values of one task (None = unset); returns a python bool (forks on symbolic comparisons)"""
     wi, it, wt, tp, ru = [vals.get(f) for f in FIELDS]
-    if wi is not None and tp is not None:
-        return True
-    if wt is not None and it is not None:
+    # "mixing time periods and iterations is not allowed": any iteration property together with any time-period property
+    if (wi is not None or it is not None) and (wt is not None or tp is not None):
         return True
     if (wi is not None or it is not None) and ru is not None:
         return True
